@@ -10,6 +10,7 @@ from ..cli import C, find_config_dir, _check_deprecated_description_cleaning, _p
 from ..config_loader import load_config, load_supplemental_sources
 from ..merchant_utils import get_all_rules, get_transforms, apply_transforms
 from ..analyzer import parse_amex, parse_boa, parse_generic_csv
+from ..classification import normalize_amount
 
 
 def cmd_discover(args):
@@ -123,9 +124,10 @@ def cmd_discover(args):
         raw = txn.get('raw_description', txn.get('description', ''))
         raw_amount = txn.get('amount', 0)
         desc_stats[raw]['count'] += 1
-        # Signed, like the totals `tally up` reports for the same transactions: a refund
-        # offsets its purchase (has_negative flags it)
-        desc_stats[raw]['total'] += raw_amount
+        # The amount `tally up` counts for the same transaction: signed - a refund offsets its
+        # purchase (has_negative flags it) - but positive for one a tag-only rule marked as
+        # income or investment
+        desc_stats[raw]['total'] += normalize_amount(raw_amount, txn.get('tags', []))
         if raw_amount < 0:
             desc_stats[raw]['has_negative'] = True
         if len(desc_stats[raw]['examples']) < 3:
